@@ -124,9 +124,11 @@ Print Assumptions C14_bounded_completion.
 
 (* batches linearise: for every trace (interleaving, pre-existing index r0 with
    duplicates / empty entries, injected failures) ending in a quiescent state, the
-   calls that returned nil or a referrers-index-delete error — and only those — took
-   effect, each once, in the order [lin], and the index under the tag is, as a set,
-   the fold of their changes over the initial index *)
+   calls that returned nil or a referrers-index-delete error, and the calls whose batch's
+   PUT took effect but was answered with an error (RLost: they see the plain error; see
+   C14_lost_response / C14_plain_error_no_effect) — and only those — took effect, each
+   once, in the order [lin], and the index under the tag is, as a set, the fold of their
+   changes over the initial index *)
 Theorem C14_no_lost_update : forall sg r0 st0 tr s,
   run sg (init r0 st0) tr = Some s -> quiescent s ->
   NoDup (lin s) /\
@@ -180,18 +182,39 @@ Print Assumptions C14_gc.
 
 Theorem C14_gc_clean : forall r0 st0 tr s,
   run false (init r0 st0) tr = Some s ->
-  forallb (fun e => negb (del_failed e)) tr = true ->
+  forallb gc_ok tr = true ->
   (forall t, is_main (pcs s t) = false) ->
   forall x, In x (store s) -> reg s = Some x \/ (In x st0 /\ r0 <> Some x).
 Proof. exact gc_clean. Qed.
 Print Assumptions C14_gc_clean.
 
-(* ... and with failed deletions: at most one more dangling index per failed deletion *)
+(* ... and with failed deletions: exactly one more dangling index per failed deletion
+   (a lost PUT response leaves the old index behind as well: excluded here, see C14_gc) *)
 Theorem C14_gc_count : forall tr s s',
-  run false s tr = Some s' ->
+  run false s tr = Some s' -> forallb (fun e => negb (put_lost e)) tr = true ->
   length (junk s') = (length (junk s) + length (filter del_failed tr))%nat.
 Proof. exact junk_count. Qed.
-Print Assumptions C14_gc_clean.
+Print Assumptions C14_gc_count.
+(* LOST RESPONSE of the index PUT (EPutLost: the registry stores the new index, the client sees
+   an error; ghost result RLost, seen by the caller as the plain error RErr).
+   C14_plain_error_no_effect: with a registry that answers truthfully, a call took effect iff
+   it did NOT return a plain error.  C14_lost_response: in general, nil / index-delete error
+   => took effect (no lost update, even with lost responses); a plain error => took effect iff
+   the response of its batch's PUT was lost ("may or may not be included"). *)
+Theorem C14_plain_error_no_effect : forall sg r0 st0 tr s t r,
+  run sg (init r0 st0) tr = Some s -> forallb (fun e => negb (put_lost e)) tr = true ->
+  (pcs s t = Ret r \/ pcs s t = Done r) ->
+  (In t (lin s) <-> seen r <> RErr).
+Proof. exact plain_error_no_effect. Qed.
+Print Assumptions C14_plain_error_no_effect.
+
+Theorem C14_lost_response : forall sg r0 st0 tr s t r,
+  run sg (init r0 st0) tr = Some s -> (pcs s t = Ret r \/ pcs s t = Done r) ->
+  (seen r <> RErr -> In t (lin s)) /\ (seen r = RErr -> (In t (lin s) <-> r = RLost)).
+Proof. exact seen_effect. Qed.
+Print Assumptions C14_lost_response.
+
+
 
 (* SetReferrersCapability: the state leaves Unknown with the first call and never
    changes afterwards; later calls fail iff they ask for the other value *)
@@ -334,6 +357,19 @@ Example run_ex :
   | Some s => lin s = [0; 1; 2]%nat /\ reg s = Some [dB] /\ pool s = None /\
               map (pcs s) [0; 1; 2; 3]%nat = [Done ROk; Done ROk; Done RIdxDel; Idle] /\
               junk s = [[dA; dB]]
+  | None => False
+  end.
+Proof. vm_compute. repeat split. Qed.
+
+(* two callers in one batch, the response of the PUT is lost: both get the error, the index
+   contains both changes, the old index is left behind *)
+Example lost_ex :
+  match run false (init (Some [dC]) [[dC]])
+          [EGet 0 (Add dA); EAssign 0; EGet 1 (Add dB); EAssign 1; ERecvMain 0; EPrepare 0 false; ECommit 0;
+           EPutLost 0; EComplete 0; EDone 0; EDone 1]%nat with
+  | Some s => lin s = [0; 1]%nat /\ reg s = Some [dC; dA; dB] /\
+              map (pcs s) [0; 1]%nat = [Done RLost; Done RLost] /\ map seen [RLost; RLost] = [RErr; RErr] /\
+              junk s = [[dC]] /\ dangling s = 1%nat
   | None => False
   end.
 Proof. vm_compute. repeat split. Qed.
